@@ -9,7 +9,7 @@ LEVEL = "exploration"
 RULE = ("diff: a random operation scenario is run with whole-buffer delivery and again under a fragmentation (1-byte / random / n-1, with empty reads); "
         "results and the complete host packet log must be identical and no bulk_read may request more than remains of the current packet (over-read monitor at the transport); "
         "cut: one scenario re-run with a forced read boundary at EVERY offset of the device byte stream; "
-        "corrupt: one byte / one bit of a non-empty payload, or of its checksum field, is changed on the wire -> the call in progress must raise InvalidChecksumError "
+        "corrupt: one byte / one bit of a non-empty payload (also of all-NUL payloads, whose checksum is 0), or of its checksum field (also: the field set to 0 / 0xFFFFFFFF), is changed on the wire -> the call in progress must raise InvalidChecksumError "
         "and the corrupted payload must appear in no result; badcmd: an unknown command word -> InvalidCommandError. "
         "non-trivial = the device sent at least one packet with a payload; distinct = distinct (kind, ops, frag, empty-rate | offset | corruption kind+position) signatures")
 ASSUMPTIONS = ["length-field corruption is excluded (framing is lost; behaviour unspecified)", "an empty payload with a non-zero checksum field is accepted by the code and outside the statement"]
@@ -30,7 +30,7 @@ def gen_cases(tier, seed):
     nc = 260 if tier == "quick" else 3000
     for i in range(nc):
         yield {"kind": "corrupt", "seed": "%d:%d" % (seed, i), "impl": ("sync", "async")[i % 2], "op": ["shell", "streaming_shell", "pull", "list", "stat", "exec_out"][i % 6],
-               "how": ["byte", "bit", "sum-byte", "sum-bit"][(i // 6) % 4]}
+               "how": ["byte", "bit", "sum-byte", "sum-bit", "sum-zero", "sum-ff", "zeros-bit"][(i // 6) % 7]}
     nb = 130 if tier == "quick" else 1000
     for i in range(nb):
         # quick: a seed-dependent window of the 234 systematic words; thorough: all of them for both implementations, then random words
@@ -72,6 +72,9 @@ def _single_op(case, rng):
     sd = "%08x" % rng.getrandbits(32)
     if op in ("shell", "exec_out", "streaming_shell"):
         step = {"op": op, "cmd": "x", "decode": False, "cls": rng.choice(["ascii", "random", "utf8", "mixed"]), "seed": sd, "take": None}
+        if case.get("how") == "zeros-bit":
+            # all-NUL payloads: their byte sum is 0, so the checksum field is 0 too
+            step["chunks"] = [("00" * n) for n in (rng.choice([1, 4, 100]), rng.choice([1, 24, 300]), 7)]
     elif op == "pull":
         step = {"op": op, "path": "/p", "size": rng.choice([1, 50, 300, 5000]), "seed": sd, "rec": rng.choice(["64k", "one", "random"]), "split": rng.choice(["whole", "random"]), "dest": "bytesio", "cb": None}
     elif op == "list":
@@ -166,7 +169,17 @@ def run_case(case):
                     state["n"] += 1
                     return None
                 b = bytearray(raw)
-                if how in ("byte", "bit"):
+                if how == "zeros-bit":
+                    pos = rng.randrange(len(pkt.payload))
+                    b[24 + pos] ^= 1 << rng.randrange(8)
+                    state["done"] = (how, pos, bytes(b[24:]))
+                elif how in ("sum-zero", "sum-ff"):
+                    new = b"\x00\x00\x00\x00" if how == "sum-zero" else b"\xff\xff\xff\xff"
+                    if bytes(b[16:20]) == new:
+                        return None        # (would not be a corruption)
+                    b[16:20] = new
+                    state["done"] = (how, 16, bytes(b[24:]))
+                elif how in ("byte", "bit"):
                     pos = rng.randrange(len(pkt.payload)) if len(pkt.payload) > 64 else rng.randrange(len(pkt.payload))
                     if how == "byte":
                         b[24 + pos] = (b[24 + pos] + rng.randint(1, 255)) & 0xFF
@@ -224,7 +237,7 @@ def run_case(case):
             viol.append({"mechanism": "accepted-" + kind, "detail": "%s returned normally (%s) although device packet was altered on the wire: %r" % (step["op"], out.brief(80), what[:2])})
         elif out.exc_name() != expect:
             viol.append({"mechanism": "wrong-exception-" + kind, "detail": "%s raised %s, expected %s (%r)" % (step["op"], out.brief(120), expect, what[:2])})
-        if kind == "corrupt" and what[0] in ("byte", "bit") and out.partial:
+        if kind == "corrupt" and what[0] in ("byte", "bit", "zeros-bit") and out.partial:
             if any(bytes(x) == what[2] for x in out.partial if isinstance(x, (bytes, bytearray))):
                 viol.append({"mechanism": "corrupted-payload-delivered", "detail": "streaming_shell yielded the corrupted payload before raising"})
         sig = "%s|%s|%s|%s|%s" % (kind, case["impl"], step["op"], what[0], what[1] if kind == "badcmd" else ("%s@%d" % (case["how"], min(what[1], 70))))
